@@ -5,12 +5,19 @@ def stepAll (st : St) (cmd : List String) (got : String) : St × Verdict :=
   match step32 st cmd got with
   | some r => r
   | none =>
+  match stepSer st cmd got with
+  | some r => r
+  | none =>
   match step64 st cmd got with
   | some r => r
   | none =>
   match stepBsi st cmd got with
   | some r => r
   | none => (st, if got.startsWith "skip" then none else some "skip")
+
+def pureQueries : List String :=
+  ["card", "empty", "has", "min", "max", "rank", "sel", "cir", "iwi", "eq", "toarr", "toexarr", "nv", "pv", "nav", "pav",
+   "andcard", "orcard", "isect", "wf", "size", "ser", "wrfail", "trunc", "chkeq", "dump", "dig"]
 
 partial def loop (script go : IO.FS.Stream) (st : St) (lineNo : Nat) (fails : Nat) : IO Nat := do
   let l ← script.getLine
@@ -28,8 +35,10 @@ partial def loop (script go : IO.FS.Stream) (st : St) (lineNo : Nat) (fails : Na
     | some exp =>
       let shown := if line.length > 200 then (line.take 200).toString ++ "..." else line
       IO.println s!"MISMATCH line={lineNo} cmd=[{shown}] expected=[{exp}] got=[{got}]"
-      -- after the first mismatch the model state may have diverged: stop
-      return fails + 1
+      -- a disagreement on a pure query leaves the model state in step with the Go state: keep going;
+      -- after any other disagreement the two states may have diverged: stop
+      if pureQueries.contains (cmd.headD "") then loop script go st' (lineNo + 1) (fails + 1)
+      else return fails + 1
 
 def main (args : List String) : IO UInt32 := do
   match args with
